@@ -39,7 +39,8 @@ fn field_attr(recvs: &[Recv], scope: &str, f: &Field, k: usize) -> String {
         With::Path => opts.push(format!("with = with_{}_{}", scope, hn)),
         With::Closure => {
             if let Ty::Sc(sc) = f.ty {
-                opts.push(format!("with = |m: &syn::Meta| <{} as ::darling::FromMeta>::from_meta(m).map(|v| {})", rust_ty(recvs, &f.ty), with_body(sc)));
+                let body = if f.foreign { format!("Foreign({})", with_body(sc)) } else { with_body(sc).to_string() };
+                opts.push(format!("with = |m: &syn::Meta| <{} as ::darling::FromMeta>::from_meta(m).map(|v| {})", rust_ty(recvs, &f.ty), body));
             } else if let Ty::Opt(inner) = &f.ty {
                 // a custom converter on an optional field: absent it is still `None`
                 if let Ty::Sc(sc) = **inner {
@@ -85,11 +86,13 @@ fn field_helpers(recvs: &[Recv], scope: &str, f: &Field, k: usize, out: &mut Str
     }
     if let Ty::Sc(sc) = f.ty {
         if f.with == With::Path {
+            let body = if f.foreign { format!("Foreign({})", with_body(sc)) } else { with_body(sc).to_string() };
             out.push_str(&format!(
-                "fn with_{}_{}(m: &syn::Meta) -> ::darling::Result<{elem_ty}> {{ <{elem_ty} as ::darling::FromMeta>::from_meta(m).map(|v| {}) }}\n",
+                "fn with_{}_{}(m: &syn::Meta) -> ::darling::Result<{}> {{ <{elem_ty} as ::darling::FromMeta>::from_meta(m).map(|v| {}) }}\n",
                 scope,
                 hn,
-                with_body(sc)
+                if f.foreign { &full_ty } else { &elem_ty },
+                body
             ));
         }
         match f.post {
@@ -369,7 +372,8 @@ pub fn emit_recv(recvs: &[Recv], r: &Recv, out: &mut String) {
                     VBody::Unit => out.push_str(&format!("    {attr}{},\n", v.rust)),
                     VBody::Newtype(t) => {
                         let fattr = v.newtype_field().map(|f| field_attr(recvs, &format!("{}v{vi}", r.id), &f, vi)).unwrap_or_default();
-                        out.push_str(&format!("    {attr}{}({fattr}{}),\n", v.rust, rust_ty(recvs, t)))
+                        let vty = v.newtype_field().map(|f| field_full_ty(recvs, &f)).unwrap_or_else(|| rust_ty(recvs, t));
+                        out.push_str(&format!("    {attr}{}({fattr}{vty}),\n", v.rust))
                     }
                     VBody::Struct(fs) => {
                         out.push_str(&format!("    {attr}{} {{\n", v.rust));
@@ -467,6 +471,8 @@ pub fn emit_dispatch(r: &Recv, out: &mut String) {
 pub const PRELUDE: &str = r#"// @generated by the corpus emitter — a shard of receiver programs
 #![allow(dead_code, unused_variables, unused_mut, unused_imports, non_snake_case, clippy::all)]
 
+#[derive(Debug, Default)] pub struct Foreign<T>(pub T);
+impl<T: ::vf_support::Dump> ::vf_support::Dump for Foreign<T> { fn dump(&self) -> ::vf_support::Value { ::vf_support::Dump::dump(&self.0) } }
 fn attrs_count(attrs: Vec<syn::Attribute>) -> ::darling::Result<usize> { Ok(attrs.len()) }
 fn attrs(list: Vec<syn::Attribute>) -> ::darling::Result<usize> { Ok(list.len()) }
 fn data_passthrough<V: ::darling::FromVariant, F: ::darling::FromField>(d: &syn::Data) -> ::darling::Result<::darling::ast::Data<V, F>> { ::darling::ast::Data::try_from(d) }
@@ -500,7 +506,7 @@ pub fn emit_shard_darling_only(recvs: &[Recv], ids: &[usize]) -> String {
     ];
     let mut in_enum = false;
     for line in full.lines() {
-        if line.starts_with("impl ::vf_support::Dump") {
+        if line.starts_with("impl ::vf_support::Dump") || (line.starts_with("impl<") && line.contains("::vf_support::Dump for ")) {
             continue;
         }
         if line.starts_with("#![allow(") {
